@@ -4,47 +4,12 @@
 -/
 import PyGqlModel.Response
 import PyGqlModel.Spec.NullSites
+import PyGqlModel.Lemmas.ExecCapture
 
 namespace PyGql.Props.C10
 open PyGql PyGql.Response PyGql.Spec.NullSites
 
-/-! #### local helpers -/
-
-private theorem wrap_inv {isNN : Bool} {nodes : List Nat} {p : Path} {r : Option (J × List Err)} {v : J} {es : List Err}
-    (h : nonNullWrap isNN nodes p r = some (v, es)) :
-    ∃ es0, r = some (v, es0) ∧
-      es = es0 ++ (if isNN && v.isNull then [Err.resolver (nonNullMessage p) (nodes.map some) (some p) none] else []) := by
-  unfold nonNullWrap at h
-  cases r with
-  | none => simp at h
-  | some ve =>
-    obtain ⟨v0, es0⟩ := ve
-    simp only at h
-    split at h
-    all_goals
-      simp only [Option.some.injEq, Prod.mk.injEq] at h
-      obtain ⟨hv, hes⟩ := h
-      subst hv
-      refine ⟨es0, rfl, ?_⟩
-      simp_all
-
-/-- the completed value is null exactly when the outcome "completes to null" -/
-private theorem inner_null_iff {b : Bool} {t : Ty} {nodes : List Nat} {p : Path} {o : Out} {v : J} {es : List Err}
-    (h : completeInner b t nodes p o = some (v, es)) : v.isNull = completesNull o := by
-  cases o with
-  | null => simp [completeInner] at h; obtain ⟨rfl, _⟩ := h; rfl
-  | raised m e =>
-    cases b <;> simp [completeInner] at h
-    obtain ⟨rfl, _⟩ := h; rfl
-  | leaf x =>
-    cases t <;> simp [completeInner] at h
-    obtain ⟨rfl, _⟩ := h; rfl
-  | list items =>
-    cases t <;> simp [completeInner] at h
-    obtain ⟨a, _, rfl⟩ := h; rfl
-  | obj fields =>
-    cases t <;> simp [completeInner] at h
-    obtain ⟨a, _, rfl⟩ := h; rfl
+open PyGql.Lemmas.ExecCapture
 
 private theorem map_app (path : Path) (s : Seg) (l : List Path) :
     (l.map (s :: ·)).map (fun p => some (path ++ p)) = l.map (fun p => some ((path ++ [s]) ++ p)) := by
